@@ -683,13 +683,9 @@ class SmallVectorBase : private Alloc {
         _size = inplaceCapa;
       }
       move_n(o._storage.ptr(), o._capa, begin(), size());
-      if (o._size == kMaxSize) {
-        if (isSmall()) {
-          _size = kMaxSize;
-        }
-        o._size = inplaceCapa;
-      }
-      msize() = amc::exchange(o._capa, 0);
+      // Go through setSize for both operands so that the 'full small' encoding of the size stays consistent
+      setSize(o._capa);
+      o.setSize(0);
     } else {
       // Clear our stuff before stealing o's guts
       destroyFreeStorage();
